@@ -23,7 +23,8 @@ def run(rep, tier, seed, replay=None):
     # measure-function calls of TaffyTree::compute_layout_with_measure without the exact-key hook: random trees + deterministic block
     # chains of depth 1..16 over a measured leaf, bit-exact and count-exact
     from . import _blockreal
-    esc = bool([c for c in changed if 'cache' in c.lower() or 'compute_cached' in c.lower() or 'block' in c.lower()])
+    esc = bool([c for c in changed if c.startswith('gen_cache:') or 'compute_cached_layout' in c or 'compute_child_layout' in c
+                or 'compute_hidden_layout' in c or 'compute_root_layout' in c or 'block' in c.lower()])
     _blockreal.real_tree_k(rep, 'C16', binp, seed + 1616, 3000 if tier != 'quick' or esc else 300)
     _blockreal.real_chain_k(rep, 'C16', binp)
     base = json.load(open(os.path.join(ROOT, 'corpus', 'C16-typical-baseline.json')))['failing']
